@@ -54,7 +54,8 @@ RULE_C16 = ("operation (ndef read, has_changed, one-command and chunked write, i
             "{command lost, response lost} x (Type 4A/4B, FSCI, FWI -> retry budget 0/1/3/5, WTX on UPDATE BINARY); at "
             "every cell an operation that returns normally returns the fault free result or its documented failure value "
             "(None / False / has_changed True / shorter dump) and, with the fault free result, leaves the fault free memory")
-REQUIRED_C01 = ["t4t_roundtrips", "t4t_ref_reads", "t4t_oversize_rejected", "t4t_len_capacity", "t4t_len_zero"]
+REQUIRED_C01 = ["t4t_roundtrips", "t4t_ref_reads", "t4t_oversize_rejected", "t4t_len_capacity", "t4t_len_zero",
+                "t4t_c01_mlc>255_writes_beyond_short_apdu_within_mlc", "t4t_c01_mle>256_reads_beyond_short_apdu"]
 REQUIRED_C02 = ["t4t_cuts", "t4t_cut_outcome_old", "t4t_cut_outcome_new", "t4t_cut_outcome_empty",
                 "t4t_c02_mlc>255_cuts", "t4t_c02_mlc>255_within_mlc_midcuts", "t4t_c02_mlc>255_within_mlc_midcuts_nlen2",
                 "t4t_c02_mlc>255_within_mlc_midcuts_nlen4", "t4t_c02_mlc>255_within_mlc_midcuts_old_shorter",
@@ -66,7 +67,8 @@ REQUIRED_C03 = ["t4t_c03_ops", "t4t_c03_updates_inspected", "t4t_c03_bytes_diffe
                 "t4t_c03_tlv04_write_reaches_last_declared_byte", "t4t_c03_tlv06_write_reaches_last_declared_byte",
                 "t4t_c03_tlv04_above_area_refused", "t4t_c03_tlv06_above_area_refused",
                 "t4t_c03_writes_on_file_larger_than_declared", "t4t_c03_writes_on_range_checking_card",
-                "t4t_c03_write_up_to_offset_limit", "t4t_c03_beyond_offset_limit_refused", "t4t_c03_oversize_refused"]
+                "t4t_c03_write_up_to_offset_limit", "t4t_c03_beyond_offset_limit_refused", "t4t_c03_oversize_refused",
+                "t4t_c03_mlc>255_writes_beyond_short_apdu"]
 REQUIRED_C08 = ["t4t_c08_cases", "t4t_c08_outcome_ndef", "t4t_c08_outcome_none", "t4t_c08_ats_variants",
                 "t4t_c08_sensb_variants", "t4t_c08_sensb_extended_atqb", "t4t_c08_stop_positions"]
 REQUIRED_C16 = ["t4t_c16_cells", "t4t_c16_within_budget_same", "t4t_c16_beyond_budget_reported", "t4t_c16_dup_checked",
@@ -258,6 +260,13 @@ def c01_eval(R, case, count=True):
             R.count("t4t_len_254_255")
         if L + ns > lay["mlc"]:
             R.count("t4t_chunked_writes")
+        if lay["mlc"] > 255 and L + ns > 255:
+            # the CC announces more than a short APDU carries: the write is split although it may fit MLc
+            R.count("t4t_c01_mlc>255_writes_beyond_short_apdu")
+            if L + ns <= lay["mlc"]:
+                R.count("t4t_c01_mlc>255_writes_beyond_short_apdu_within_mlc")
+        if lay["mle"] > 256 and L > 256:
+            R.count("t4t_c01_mle>256_reads_beyond_short_apdu")
         R.max("t4t_c01_commands", dev.n_commands)
     return True
 
@@ -656,6 +665,10 @@ def c03_eval(R, case, count=True):
                 R.count("t4t_c03_capacity_below_file_size_%s" % tl)
             if res == "ok" and card.update_cmds:
                 R.count("t4t_c03_%s_writes_applied" % tl)
+                if lay["mlc"] > 255:
+                    R.count("t4t_c03_mlc>255_writes_applied")
+                    if L + ns_of(lay) > 255:
+                        R.count("t4t_c03_mlc>255_writes_beyond_short_apdu")
                 if guard and lay.get("enforce", "physical") == "physical":
                     R.count("t4t_c03_writes_on_file_larger_than_declared")
                 else:
